@@ -20,3 +20,8 @@ def run(ck):
         " | Python half: generated schemas x values whose integer leaves are out of range (too large, negative for "
         "unsigned, huge) paired with the in-range value of the same low bits")
     run_py_half(ck)
+    # optimization mode: every emitted -O statement against the plan whose single-field theorem is
+    # stated for every object content (C04_single_field_enc); -O code executed incl. negative /
+    # all-ones values whose bits above the declared width must not leak
+    from opstage import opmode_stage
+    opmode_stage(ck, "C07.v", (25, 20, 4), (400, 800, 6), "opmode_containment")
